@@ -226,7 +226,7 @@ func runTRaw(r *Run, s *TSpec) (*tSummary, error) {
 				fmt.Sprintf("-rapid.checks=%d", per), fmt.Sprintf("-rapid.seed=%d", uint64(r.Opt.Seed)*7919+uint64(i)*104729+1), "-rapid.nofailfile", "-rapid.shrinktime=20s")
 			cmd.Dir = filepath.Join(r.Work, "pmain")
 			env := append(batch.Env(), "VTOOL_OUT="+out, "VTOOL_TMP="+tmp, "VTOOL_KF="+strings.Join(r.OpenFindings(), ","), "VTOOL_PIGEON="+pigeon,
-				"VTOOL_REPO="+r.Repo, "VTOOL_TIER="+r.Opt.Tier)
+				"VTOOL_REPO="+r.Repo, "VTOOL_TIER="+r.Opt.Tier, fmt.Sprintf("VTOOL_SHARD=%d", i))
 			_ = replayDir
 			cmd.Env = append(env, s.Env...)
 			var buf bytes.Buffer
